@@ -113,6 +113,11 @@ func newConverter(nft bool, ks []kind, names []string) *converter {
 	}
 	for _, k := range ks {
 		for _, n := range names {
+			if n == "" {
+				// EndpointChainName(pfx, "") == EndpointChainName(pfx, "_"); the empty name is outside the
+				// domain (the renderer panics on it), so it gets no reverse mapping.
+				continue
+			}
 			cn := rules.EndpointChainName(k.epPfx, n, c.maxLen)
 			src := k.coq + "|" + n
 			if old, ok := c.epSrc[cn]; ok && old != src {
